@@ -169,8 +169,13 @@ class YAMLFormatter(GraphtageFormatter):
 
     def print(self, printer: Printer, *args, **kwargs):
         # YAML only gets a two-space indent
+        previous_indent = printer.indent_str
         printer.indent_str = '  '
-        super().print(printer, *args, **kwargs)
+        try:
+            super().print(printer, *args, **kwargs)
+        finally:
+            # the printer belongs to the caller, who may go on to use it with another formatter
+            printer.indent_str = previous_indent
 
     @staticmethod
     def write_obj(printer: Printer, obj):
